@@ -630,11 +630,13 @@ fn relay_algebra(w: &mut World, n: usize, a: &[u64]) -> VResult {
         Err(e) => return Err(viol("relay.merge-error", format!("merging {} valid payloads failed: {}", ps.len(), e))),
     };
     if w.verbose {
-        for p in ps.iter() {
-            eprintln!("   .. input  {:?}", decode(p, enc));
-        }
-        eprintln!("   .. merged {:?}", decode(&merged, enc));
-        eprintln!("   .. base\n{}", yrs::verif::blocks_dump(w.nodes[n].doc.transact().store()));
+        crate::arena::outside(|| {
+            for p in ps.iter() {
+                eprintln!("   .. input  {:?}", decode(p, enc));
+            }
+            eprintln!("   .. merged {:?}", decode(&merged, enc));
+            eprintln!("   .. base\n{}", yrs::verif::blocks_dump(w.nodes[n].doc.transact().store()));
+        });
     }
     let t1 = clone_from(w, n)?;
     let t2 = clone_from(w, n)?;
